@@ -96,6 +96,7 @@ class AORun:
           ao.start_at(script.fn[1])
           sched.run()                       # warm-up: every service thread reaches its blocking point
           warm = len(sched.log)
+          self.warm_choices = len(sched.choices)
         for p, prog in sorted(cfg["progs"].items()):
           sched.spawn(p, self.poster, p, prog)
         if cfg.get("stop"):
@@ -145,7 +146,8 @@ class AORun:
       live["disp_sigs"] = [c[0] for c in self.script.log if c[0] in ("A", "B", "C")]
     return {"outcome": outcome, "dq": dq, "tokens": ao.locking_deque.locking_queue._size(), "dispatched": list(self.dispatched), "liveout": live,
             "errors": sched.errors, "blocked": sched.blocked(), "steps": sched.steps, "ops": ops,
-            "rtc_overlap": self.rtc_overlap, "stopped": bool(self.cfg.get("stop")), "schedule": [c[0] for c in sched.choices][-(sched.steps):],
+            "rtc_overlap": self.rtc_overlap, "stopped": bool(self.cfg.get("stop")),
+            "schedule": [c[0] for c in sched.choices][getattr(self, "warm_choices", 0):],     # the choices after the warm-up: what --replay imposes
             "posters_done": all(vt.state == "done" for vt in sched.threads if vt.name in self.cfg["progs"])}
 
   # ---- spec -> code: impose a TLC behaviour of LockingDeque.tla -------------------------------
